@@ -424,12 +424,12 @@ func genCase(r *hutil.Rand, prop string, i int) (genLine, string, runMode) {
 	mode := runMode{WriteOK: true, Ready: true}
 	switch prop {
 	case "C06":
-		return genForm(r, formNames[i%len(formNames)]), genPidToken(r, false), mode
+		return genForm(r, formNames[i%len(formNames)]), genPidToken(r, false), mode /*C06LIST*/
 	case "C17":
 		return genClientName(r), genPidToken(r, false), mode
 	case "C11":
 		if i%5 == 0 {
-			return genForm(r, hutil.Pick(r, formNames)), genPidToken(r, true), mode
+			return genForm(r, hutil.Pick(r, formNamesAll)), genPidToken(r, true), mode
 		}
 		return genHostile(r), genPidToken(r, i%3 == 0), mode
 	case "C19":
@@ -439,15 +439,15 @@ func genCase(r *hutil.Rand, prop string, i int) (genLine, string, runMode) {
 		case 1:
 			return genClientName(r), genPidToken(r, false), mode
 		}
-		return genForm(r, hutil.Pick(r, formNames)), genPidToken(r, i%4 == 0), mode
+		return genForm(r, hutil.Pick(r, formNamesAll)), genPidToken(r, i%4 == 0), mode
 	case "C05":
 		var g genLine
 		switch i % 4 {
 		case 0, 1, 2:
-			g = genForm(r, []string{"accepted_key", "accepted_cert", "accepted_password"}[i%3])
+			g = genForm(r, []string{"accepted_key", "accepted_cert", "accepted_password", "accepted_key_padded"}[(i/4+i)%4])
 		default:
 			if r.Bool() {
-				g = genForm(r, hutil.Pick(r, formNames))
+				g = genForm(r, hutil.Pick(r, formNamesAll))
 			} else {
 				g = genHostile(r)
 			}
@@ -467,7 +467,7 @@ func genCase(r *hutil.Rand, prop string, i int) (genLine, string, runMode) {
 		}
 		return genForm(r, formNames[i%len(formNames)]), genPidToken(r, false), mode
 	}
-	return genForm(r, hutil.Pick(r, formNames)), genPidToken(r, false), mode
+	return genForm(r, hutil.Pick(r, formNamesAll)), genPidToken(r, false), mode
 }
 
 func doReplay(path, prop string) int {
